@@ -485,3 +485,92 @@ pub fn dump_all(conn: &Connection) -> R<Vec<String>> {
     v.sort();
     Ok(v)
 }
+
+/// C06: every stored row that can be synchronised verifies against its own signature, exactly as stored.
+/// Returns (kind, description) of every row, reference or deletion record that does not.
+pub fn verify_stored_signatures(conn: &Connection) -> R<Vec<(String, String)>> {
+    let mut bad = vec![];
+    {
+        let mut st = e2s(conn.prepare("SELECT id, room_id, cdate, mdate, _entity, _json, _binary, verifying_key, _signature FROM _node"))?;
+        let mut rows = e2s(st.query([]))?;
+        while let Some(r) = e2s(rows.next())? {
+            let idv: Vec<u8> = e2s(r.get(0))?;
+            let room: Option<Vec<u8>> = e2s(r.get(1))?;
+            let mut id = [0u8; 16];
+            if idv.len() != 16 {
+                continue;
+            }
+            id.copy_from_slice(&idv);
+            let room_id = room.and_then(|x| {
+                if x.len() == 16 {
+                    let mut u = [0u8; 16];
+                    u.copy_from_slice(&x);
+                    Some(u)
+                } else {
+                    None
+                }
+            });
+            let n = dv::Node { id, room_id, cdate: e2s(r.get(2))?, mdate: e2s(r.get(3))?, _entity: e2s(r.get(4))?, _json: e2s(r.get(5))?, _binary: e2s(r.get(6))?, verifying_key: e2s(r.get(7))?, _signature: e2s(r.get(8))?, _local_id: None };
+            if n.verify().is_err() {
+                bad.push(("row".to_string(), format!("row {} of entity {} dated {}", hex(&n.id), n._entity, n.mdate)));
+            }
+        }
+    }
+    {
+        let mut st = e2s(conn.prepare("SELECT src, src_entity, label, dest, cdate, verifying_key, signature FROM _edge"))?;
+        let mut rows = e2s(st.query([]))?;
+        while let Some(r) = e2s(rows.next())? {
+            let s: Vec<u8> = e2s(r.get(0))?;
+            let d: Vec<u8> = e2s(r.get(3))?;
+            if s.len() != 16 || d.len() != 16 {
+                continue;
+            }
+            let (mut src, mut dest) = ([0u8; 16], [0u8; 16]);
+            src.copy_from_slice(&s);
+            dest.copy_from_slice(&d);
+            let e = dv::Edge { src, src_entity: e2s(r.get(1))?, label: e2s(r.get(2))?, dest, cdate: e2s(r.get(4))?, verifying_key: e2s(r.get(5))?, signature: e2s(r.get(6))? };
+            if e.verify().is_err() {
+                bad.push(("reference".to_string(), format!("reference {}-{}->{}", hex(&e.src), e.label, hex(&e.dest))));
+            }
+        }
+    }
+    {
+        let mut st = e2s(conn.prepare("SELECT room_id, id, entity, mdate, deletion_date, verifying_key, signature FROM _node_deletion_log"))?;
+        let mut rows = e2s(st.query([]))?;
+        while let Some(r) = e2s(rows.next())? {
+            let ro: Vec<u8> = e2s(r.get(0))?;
+            let i: Vec<u8> = e2s(r.get(1))?;
+            if ro.len() != 16 || i.len() != 16 {
+                continue;
+            }
+            let (mut room_id, mut id) = ([0u8; 16], [0u8; 16]);
+            room_id.copy_from_slice(&ro);
+            id.copy_from_slice(&i);
+            let e = dv::NodeDeletionEntry { room_id, id, entity: e2s(r.get(2))?, mdate: e2s(r.get(3))?, deletion_date: e2s(r.get(4))?, verifying_key: e2s(r.get(5))?, signature: e2s(r.get(6))?, entity_name: None };
+            if e.verify().is_err() {
+                bad.push(("row-deletion-record".to_string(), format!("deletion record of row {}", hex(&e.id))));
+            }
+        }
+    }
+    {
+        let mut st = e2s(conn.prepare("SELECT room_id, src, src_entity, dest, label, cdate, deletion_date, verifying_key, signature FROM _edge_deletion_log"))?;
+        let mut rows = e2s(st.query([]))?;
+        while let Some(r) = e2s(rows.next())? {
+            let ro: Vec<u8> = e2s(r.get(0))?;
+            let s: Vec<u8> = e2s(r.get(1))?;
+            let d: Vec<u8> = e2s(r.get(3))?;
+            if ro.len() != 16 || s.len() != 16 || d.len() != 16 {
+                continue;
+            }
+            let (mut room_id, mut src, mut dest) = ([0u8; 16], [0u8; 16], [0u8; 16]);
+            room_id.copy_from_slice(&ro);
+            src.copy_from_slice(&s);
+            dest.copy_from_slice(&d);
+            let e = dv::EdgeDeletionEntry { room_id, src, src_entity: e2s(r.get(2))?, dest, label: e2s(r.get(4))?, cdate: e2s(r.get(5))?, deletion_date: e2s(r.get(6))?, verifying_key: e2s(r.get(7))?, signature: e2s(r.get(8))?, entity_name: None };
+            if e.verify().is_err() {
+                bad.push(("reference-deletion-record".to_string(), format!("deletion record of reference {}-{}->{}", hex(&e.src), e.label, hex(&e.dest))));
+            }
+        }
+    }
+    Ok(bad)
+}
